@@ -28,6 +28,13 @@ def bfs(R, maxdev, maxdepth=3, name=None):
     return cases
 
 
+def focus(R, sym, maxdev=1, maxdepth=3):
+    """a focus start symbol of the grammar (hdprog, hdlay, prprog, wprog)"""
+    cfg = "INIT Init\nNEXT Next\nINVARIANT EmitCase\nCONSTANTS MaxDev = %d\n MaxDepth = %d\n StartSym = \"%s\"\n" % (maxdev, maxdepth, sym)
+    res = R.tlc("ShellGen", cfg, name="ShellGen-%s-dev%d" % (sym, maxdev), timeout=3000)
+    return _cases(res)
+
+
 def simulate(R, num, maxdev=10, maxdepth=4, workers=8, name=None):
     """random long derivations (TLC -simulate, seeded by VERIF_SEED); num per worker"""
     cfg = "INIT Init\nNEXT Next\nINVARIANT EmitCase\nCONSTANTS MaxDev = %d\n MaxDepth = %d\n StartSym = \"prog\"\n" % (maxdev, maxdepth)
